@@ -8,10 +8,12 @@ package main
 import (
 	"bytes"
 	"fmt"
+	"io"
 	"net"
 	"testing"
 	"time"
 
+	"github.com/refraction-networking/conjure/pkg/station/log"
 	"github.com/refraction-networking/conjure/pkg/transports/wrapping/prefix"
 	pb "github.com/refraction-networking/conjure/proto"
 
@@ -211,6 +213,16 @@ func c04Scenario(r *sim.Run) {
 		others = tp.Choose("others", 4)
 	}
 	v6 := tp.Choose("family", 4) == 3
+	// the operator's GeoIP database (per-country statistics paths of the handler) and the periodic
+	// statistics printer, which resets those tables while connections are being classified
+	if g := tp.Choose("geoip", 3); g != 0 {
+		w.rm.GeoIP = stGeo{g}
+	}
+	statsTicks := tp.Choose("stats-ticks", 3)
+	var tickAt []time.Duration
+	for i := 0; i < statsTicks; i++ {
+		tickAt = append(tickAt, time.Duration(tp.Choose("tick-at", 40))*250*time.Millisecond)
+	}
 
 	fail := func(se *c04Session, clause, format string, a ...any) bool {
 		return r.Fail("C04/"+clause+"/"+stTransportName(se.p.tt), "["+se.p.name+"] "+format, a...)
@@ -334,6 +346,19 @@ func c04Scenario(r *sim.Run) {
 		}
 		w.settle()
 		done := make(chan bool, len(sess))
+		if len(tickAt) > 0 {
+			s.Spawn("stats-ticker", func() {
+				t0 := time.Now()
+				lg := log.New(io.Discard, "", 0)
+				for _, at := range tickAt {
+					if d := at - time.Since(t0); d > 0 {
+						time.Sleep(d)
+					}
+					w.cm.PrintAndReset(lg)
+					r.Probe("stats_reset_during_classification")
+				}
+			})
+		}
 		for i, se := range sess {
 			i, se := i, se
 			s.Spawn(fmt.Sprintf("client%d", i), func() {
